@@ -1,5 +1,6 @@
 """C16 - ADSS sharing is deterministic up to the share point; recovery rebuilds it."""
 from .. import query as Q
+from ..terms import FIRST_CELLS
 from .common import S, fidx, ok_variant
 from . import c05
 
@@ -120,7 +121,9 @@ def run(ctx):
     fs = Q.facts_of_variant(e2, ret2, 0) or set()
     nonempty_in = any(f[0].op == "iter_empty" and f[1:] == ("eq", 0) for f in fs) or \
         any(f[0].op == "eq" and f[1:] == ("eq", 0) and f[0].args[1].op == "int" and f[0].args[1].args[0] == 0 and
-            f[0].args[0].op in ("len", "len_iter") and Q.path_of(f[0].args[0].args[0]) == "shares" for f in fs)
+            f[0].args[0].op in ("len", "len_iter") and Q.path_of(f[0].args[0].args[0]) == "shares" for f in fs) or \
+        any(f[0].op == "discr" and f[1:] == ("eq", 1) and f[0].args[0].op == "phi" and f[0].args[0].id in FIRST_CELLS and
+            (Q.path_of(FIRST_CELLS[f[0].args[0].id]) or "").startswith("shares.first") for f in fs)   # set-once first cell is Some
     ctx.add("C16.R3", "adss::recover#no-shares-refused", nonempty_in,
             "an Ok of adss::recover must imply that the share collection was not empty", ctx.fn("adss::recover").loc)
     e3, ret3, _, _ = ctx.root("star_sharks::share_ff::interpolate")
